@@ -92,6 +92,9 @@ func (p *parser) parse(filename string, src io.Reader) (*syntax.File, error) {
 	if err := lexer.err; err != nil {
 		return nil, err
 	}
+	if n := lexer.s.ErrorCount; n > 0 {
+		return nil, fmt.Errorf("%v: %d lexical error(s)", filename, n)
+	}
 
 	file := lexer.file
 	file.Path = filename
